@@ -2,12 +2,22 @@
 from __future__ import annotations
 from typing import Optional, Sequence, Tuple, Union
 
+import numpy
 import numpy.typing
 
 import numpoly
 
 from . import clean
 from ..baseclass import ndpoly
+
+# dtypes implemented by the raw writers in ``numpoly/cfunctions/cvalues.pyx``
+CVALUES_DTYPES = (
+    numpy.bool_,
+    numpy.uint32,
+    numpy.int64,
+    numpy.float64,
+    numpy.complex128,
+)
 
 
 def polynomial_from_attributes(
@@ -92,7 +102,14 @@ def polynomial_from_attributes(
     )
 
     if coefficients:
-        numpoly.cfrom_attributes(coefficients, poly.values.ravel())
+        # The raw writers interpret the bytes by the *source* dtype, so cast to
+        # the buffer dtype first, and only use them for dtypes they implement.
+        coefficients = [coeff.astype(poly.dtype) for coeff in coefficients]
+        if poly.dtype in CVALUES_DTYPES:
+            numpoly.cfrom_attributes(coefficients, poly.values.ravel())
+        else:
+            for key, coeff in zip(poly.keys, coefficients):
+                poly.values[key] = coeff
     else:
         for key in poly.keys:
             poly.values[key] = 0
